@@ -3,12 +3,14 @@ package props
 import (
 	"bytes"
 	"context"
+	"errors"
 	"fmt"
 	"io"
 	"math/rand"
 	"testing/iotest"
 	"time"
 
+	ch "github.com/ClickHouse/ch-go"
 	"github.com/ClickHouse/ch-go/compress"
 	"github.com/ClickHouse/ch-go/proto"
 
@@ -21,7 +23,7 @@ func init() {
 	Registry["C08"] = Spec{
 		Fn:          c08,
 		Level:       "exploration",
-		Rule:        "the response scripts of C03 (incl. failing ones) are replayed under segmentations of the server byte stream: whole, one byte per read, two pieces at every offset (all offsets for streams <= 600 B, else 96 sampled), random split vectors, all 2^(n-1) splits of short (<= 12 B) responses, with 0..3 virtual read-deadline expiries before each packet, and with every packet split after its first byte / at a random offset by a pause that would expire an armed read deadline; every run is compared with the executable model (same oracle as C03) and a follow-up Ping must find the connection at a packet boundary. Proto level: library-encoded blocks and messages (plain and inside each kind of compressed frame) decoded through one-byte, half, data-with-EOF and random-chunk readers must give the values and consumption of the one-shot decode. Non-trivial = >=2 segments that split a field; distinct = (stream, segmentation)",
+		Rule:        "the response scripts of C03 (incl. failing ones) are replayed under segmentations of the server byte stream: whole, one byte per read, two pieces at every offset (all offsets for streams <= 600 B, else 96 sampled), random split vectors, all 2^(n-1) splits of short (<= 12 B) responses, with 0..3 virtual read-deadline expiries before each packet, and with every packet split after its first byte / at a random offset by a pause that would expire an armed read deadline; the stream cut after a random byte (server gone) under whole / one-byte / two-piece-near-the-cut / random delivery must fail with the same error class (io.EOF, io.ErrUnexpectedEOF, exception, callback error); every run is compared with the executable model (same oracle as C03) and a follow-up Ping must find the connection at a packet boundary. Proto level: library-encoded blocks and messages (plain and inside each kind of compressed frame) decoded through one-byte, half, data-with-EOF and random-chunk readers must give the values and consumption of the one-shot decode. Non-trivial = >=2 segments that split a field; distinct = (stream, segmentation)",
 		Assumptions: []string{"only read patterns a conforming io.Reader / net.Conn may produce"},
 		MinDistinct: 500,
 	}
@@ -152,6 +154,46 @@ func c08(r *core.Run) {
 			r.SetAdd("segmentation_kinds", "pause-inside-packet")
 			if got != ref0 && ref0 != "trace-mismatch" && got != "trace-mismatch" && got != "hang" {
 				r.Violation("pause-inside-packet-changes-outcome", fmt.Sprintf("script %s: a pause inside a packet (longer than the read timeout) changed the outcome: %s instead of %s", s2.Kinds(), got, ref0), map[string]any{"script": scriptDesc(&s2)})
+			}
+		}
+		// truncated streams: the server goes away after k bytes of the response; which error the
+		// caller gets (io.EOF, io.ErrUnexpectedEOF, neither) must not depend on the segmentation
+		if respLen > 1 {
+			for j := 0; j < 3; j++ {
+				s3 := *s
+				s3.CutAfter = 1 + int64(rng.Intn(respLen-1))
+				cls := func(seg func(avail, want int) int) string {
+					res := runResponse(&s3, seg)
+					if res.Client != nil {
+						res.Client.Close()
+					}
+					r.Eval()
+					if !res.Returned {
+						return "hang"
+					}
+					if res.ConnErr != nil {
+						return "connect-error"
+					}
+					if res.Err == nil {
+						return "nil"
+					}
+					var ex *ch.Exception
+					return fmt.Sprintf("EOF=%v UnexpectedEOF=%v exception=%v callback=%v", errors.Is(res.Err, io.EOF), errors.Is(res.Err, io.ErrUnexpectedEOF), errors.As(res.Err, &ex), errors.Is(res.Err, errInjected))
+				}
+				whole := cls(nil)
+				rs := rand.New(rand.NewSource(rng.Int63()))
+				for name, seg := range map[string]func(avail, want int) int{
+					"one-byte":  func(avail, want int) int { return 1 },
+					"two-piece": cutSeg([]int{helloLen + int(s3.CutAfter) - 1 - rs.Intn(int(min(s3.CutAfter, 9)))}),
+					"random":    func(avail, want int) int { return 1 + rs.Intn(1+rs.Intn(64)) },
+				} {
+					got := cls(seg)
+					r.SetAdd("segmentation_kinds", "truncated+"+name)
+					r.NonTrivial(ci, "trunc", j, name)
+					if got != whole && got != "hang" && whole != "hang" {
+						r.Violation("truncated-stream-error-depends-on-segmentation:"+name, fmt.Sprintf("script %s cut after %d of %d response bytes: delivered at once Do fails with [%s], with %s segmentation with [%s]", s3.Kinds(), s3.CutAfter, respLen, whole, name, got), map[string]any{"script": scriptDesc(&s3), "cut_after": s3.CutAfter, "segmentation": name})
+					}
+				}
 			}
 		}
 		// the connection must be at a packet boundary after a successful query
